@@ -52,6 +52,63 @@ def templates(ctx):
                     'outputs built for that destination carry a non-standard script / standard scripts are not recognised')
 
 
+@PROP.obligation('C05.blueprint', canaries=[
+    mut.replace_expr('scripts', '_get_script_types', 'op.op_1 <= item <= op.op_16', 'item in range(op.op_1, op.op_16)', 'OP_16 not recognised as OP_n'),
+    mut.replace_expr('scripts', 'get_data_type', '69 <= len(data) <= 74', '9 <= len(data) <= 74', 'payloads starting with 0x30 classified as signatures'),
+    mut.replace_expr('scripts', 'get_data_type', 'len(data) == 32', 'len(data) == 33', '32-byte payloads not typed by length'),
+])
+def blueprint(ctx):
+    """The two steps between a parsed script and its template: get_data_type types a 20- or 32-byte push as data-20 / data-32 whatever its
+    content (a hash can start with any byte), and _get_script_types maps the blueprints OP_n <32> for every n in 1..16, 0 <20>, 0 <32>,
+    DUP HASH160 <20> EQUALVERIFY CHECKSIG and HASH160 <20> EQUAL to p2tr / p2wpkh / p2wsh / p2pkh / p2sh and nothing else."""
+    q = 'scripts:get_data_type'
+    fn = ctx.repo.func(q)
+    d = ('var', 'data')
+    it = Interp(ctx.repo, 'scripts', decide=lambda t: False if isinstance(t, tuple) and t[0] == 'isinstance' else None)
+    exits = it.run_function(fn, {'data': S(d, 'bytes')})
+    for L in (20, 32):
+        vals = {}
+        for e in exits:
+            if not intv.exit_feasible(e, {('len', d): L}):
+                continue
+            if e.kind != 'return':
+                vals['raises'] = e
+                continue
+            v = term(e.value)
+            if isinstance(v, tuple) and v[0] == 'fmt' and v[2] == ('len', d):
+                v = v[1] % L
+            vals[v if isinstance(v, str) else show(v)] = e
+        ctx.saw('get_data_type(%d bytes) -> %s' % (L, sorted(vals)))
+        for v, e in sorted(vals.items()):
+            if v != 'data-%d' % L:
+                ctx.violate(q, 'a %d-byte push is typed %r when %s' % (L, v, ' and '.join(('' if pol else 'not ') + show(t) for t, pol in e.pc if 'startswith' in show(t) or 'index' in show(t))[:200] or 'always'), e.node or fn,
+                            'a locking script whose %d-byte hash has that content matches no template: no address / another script type is reported for a standard output' % L)
+        if 'data-%d' % L not in vals:
+            ctx.violate(q, 'a %d-byte push is never typed data-%d' % (L, L), fn)
+    q = 'scripts:_get_script_types'
+    fn = ctx.repo.func(q)
+    cases = [([0x50 + n, 'data-32'], 'p2tr') for n in range(1, 17)] + [([0, 'data-20'], 'p2wpkh'), ([0, 'data-32'], 'p2wsh'), ([0x76, 0xa9, 'data-20', 0x88, 0xac], 'p2pkh'),
+                                                                   ([0xa9, 'data-20', 0x87], 'p2sh'), ([0x50, 'data-32'], None), ([0x61, 'data-32'], None), ([0x4f, 'data-32'], None)]
+    n = 0
+    for bp, exp in cases:
+        it = Interp(ctx.repo, 'scripts')
+        try:
+            ex = it.run_function(fn, {'blueprint': list(bp), 'is_locking': True})
+        except AnalysisError as e:
+            ctx.undecided('_get_script_types(%s) not evaluable: %s' % (bp, str(e)[:80]))
+        rets = [term(e.value) for e in ex if e.kind == 'return']
+        if len(rets) != 1 or not (isinstance(rets[0], tuple) and rets[0][0] == 'list'):
+            ctx.undecided('_get_script_types(%s): result %s' % (bp, rets))
+        got = list(rets[0][1:])
+        n += 1
+        if exp is not None:
+            ctx.require(got == [exp], q, 'blueprint %s is matched as %s, the standard template is %s' % ([('%#x' % x if isinstance(x, int) else x) for x in bp], got, exp), fn,
+                        'a standard locking script of that form is reported without address / as another type')
+        else:
+            ctx.require('p2tr' not in got, q, 'blueprint %s is matched as %s: the opcode is not a witness version' % ([('%#x' % x if isinstance(x, int) else x) for x in bp], got), fn)
+    ctx.saw('%d blueprints (witness versions 1..16 with a 32-byte program, v0 programs, p2pkh, p2sh, three non-version opcodes) matched' % n)
+
+
 @PROP.obligation('C05.single-source')
 def single_source(ctx):
     """Script.__init__ (instantiation from script_types) and _get_script_types (inference) both read SCRIPT_TYPES; the P2PKH bytes
